@@ -158,3 +158,33 @@ Theorem C13_one_section_cleanup_same_schedule :
   = [OOk; OOk; OOk; OOk; OVal (VS sb)].
 Proof. exact one_section_cleanup_same_schedule. Qed.
 Print Assumptions C13_one_section_cleanup_same_schedule.
+
+(* An expired-entry reader racing a writer.  GetHash / GetAllHash / GetExpiration answer in their first section and, if
+   they found the item expired, evict it in a second one.  Whatever single-section call w lands between the two, the
+   answers of both calls and the resulting store are those of the sequential order  r ; w  (the other interleavings are
+   sequential orders by C13_mem_refines_spec) — because the second section re-tests expiry. *)
+Theorem C13_reader_upgrade_vs_writer :
+  forall m s now r k w,
+  refines m s now -> two_phase r = Some k -> two_phase w = None ->
+  let '(out_r, gc) := read_phase repaired m now r in
+  let '(out_w, m1, now1) := mem_step DefaultDataTTL_ms repaired m now w in
+  let m2 := if gc then gc_key m1 now1 k else m1 in
+  let '(sr, s1, nowr) := spec_step DefaultDataTTL_ms s now r in
+  let '(sw, s2, noww) := spec_step DefaultDataTTL_ms s1 nowr w in
+  out_r = sr /\ out_w = sw /\ now1 = noww /\ refines m2 s2 now1.
+Proof. exact (reader_upgrade_vs_writer DefaultDataTTL_ms default_ttl_positive). Qed.
+Print Assumptions C13_reader_upgrade_vs_writer.
+
+(* Re-testing the item's IDENTITY instead ("still the *StorageItem I saw") loses a completed SetHash, which refreshes an
+   expired item in place: the resulting log has no linearization. *)
+Theorem C13_pointer_recheck_refuted :
+  ~ legal DAY 1000
+      (sh_log (s3 (fst (run shared3 local3 (tstep_pointer_recheck DAY repaired) (init3 1000 upgrade_progs) upgrade_sched)))).
+Proof. exact pointer_recheck_refuted. Qed.
+Print Assumptions C13_pointer_recheck_refuted.
+
+Theorem C13_expiry_recheck_same_schedule :
+  map snd (sh_log (fst (run shared local (tstep DAY repaired) (init 1000 upgrade_progs) upgrade_sched)))
+  = [OOk; OOk; OOk; ONotFound; OOk; OVal (VS sb)].
+Proof. exact expiry_recheck_same_schedule. Qed.
+Print Assumptions C13_expiry_recheck_same_schedule.
